@@ -59,7 +59,14 @@ type scriptSink struct {
 	mu     sync.Mutex
 	writes [][]byte
 	ncalls int
-	failAt int // -1 = never
+	failAt int  // -1 = never
+	once   bool // only call number failAt fails (a transient failure)
+}
+
+// newSink: "<k>" = every call from the k-th on fails, "<k>!" = only the k-th call fails, "-1" = never
+func newSink(tok string) *scriptSink {
+	once := strings.HasSuffix(tok, "!")
+	return &scriptSink{failAt: atoi(strings.TrimSuffix(tok, "!")), once: once}
 }
 
 func (s *scriptSink) Write(p []byte) (int, error) {
@@ -67,7 +74,7 @@ func (s *scriptSink) Write(p []byte) (int, error) {
 	defer s.mu.Unlock()
 	k := s.ncalls
 	s.ncalls++
-	if s.failAt >= 0 && k >= s.failAt {
+	if s.failAt >= 0 && (k == s.failAt || k > s.failAt && !s.once) {
 		return 0, errInjected
 	}
 	s.writes = append(s.writes, append([]byte(nil), p...))
@@ -261,7 +268,7 @@ func implW(f []string, o *oracleSink) string {
 	if shadowDepth == 0 {
 		gBase = beginConc()
 	}
-	sink := &scriptSink{failAt: atoi(f[1])}
+	sink := newSink(f[1])
 	zw := lz4.NewWriter(sink)
 	cur := map[string]int{"bs": 4 << 20, "bc": 0, "cc": 1, "sz": 0, "lvl": 0, "conc": 1, "leg": 0}
 	tr := &frameTrack{clean: sink.failAt < 0, opts: cur}
@@ -389,15 +396,16 @@ func implW(f []string, o *oracleSink) string {
 				return errName(err)
 			case "R":
 				// Reset waits for the pipeline of a concurrent Writer: the old sink is complete afterwards
-				newSink := &scriptSink{failAt: atoi(p[1])}
-				zw.Reset(newSink)
+				ns := newSink(p[1])
+				zw.Reset(ns)
 				finishFrame()
-				sink = newSink
+				sink = ns
 				o2 := map[string]int{}
 				for k, v := range cur {
 					o2[k] = v
 				}
-				tr = &frameTrack{clean: sink.failAt < 0, opts: o2}
+				_ = o2
+				tr = &frameTrack{clean: sink.failAt < 0, opts: cur}
 				return "-"
 			case "rf":
 				d := loadBlob(p[1])
@@ -432,7 +440,7 @@ func implW(f []string, o *oracleSink) string {
 	tr.opts = cur
 	// C15: a sink failure must be returned by some call, at the latest by Close, and what reached the
 	// sink must be a prefix of the fault-free output
-	if fa := atoi(f[1]); fa >= 0 && !hung && len(f) > 2 && !strings.Contains(strings.Join(f[2:], " "), "R:") {
+	if fa := atoi(strings.TrimSuffix(f[1], "!")); fa >= 0 && !hung && len(f) > 2 && !strings.Contains(strings.Join(f[2:], " "), "R:") {
 		hit := sink.calls() > fa
 		reported := false
 		for _, r := range res {
@@ -528,6 +536,7 @@ func implR(f []string, o *oracleSink) string {
 				if n > len(buf) || n < 0 {
 					return fmt.Sprintf("%d/BADCOUNT/%s", n, errName(err))
 				}
+				buf = append([]byte(nil), buf[:n]...) // spareIntact re-arms the scratch area
 				if !spareIntact(want) {
 					notes = append(notes, "WROTE-BEHIND-LEN")
 				}
@@ -547,7 +556,7 @@ func implR(f []string, o *oracleSink) string {
 				}
 				return fmt.Sprintf("%d/%d/%s", n, fnv(buf[:n]), errName(err))
 			case "wt":
-				sink := &scriptSink{failAt: atoi(p[1])}
+				sink := newSink(p[1])
 				n, err := zr.WriteTo(sink)
 				all := sink.bytes()
 				if !cleanEOF && !sawErr {
